@@ -106,7 +106,7 @@ def instances(tier, seed):
         for fold in (False, True):
             for mode in (('eval', 'train', 'mixed') if (s in progs[:3] or s.get('fam') == 'Z1') else ('eval', 'train')):
                 out.append({'id': f'PIT:{pitlib.prog_id(s)}:fold={int(fold)}:{mode}', 'what': 'pit', 'spec': s, 'fold': fold, 'mode': mode, 'wseed': seed})
-    sns = [{'n': 2, 'kind': 'conv'}, {'n': 3, 'kind': 'seq'}, {'n': 3, 'kind': 'mix'}, {'n': 2, 'kind': 'conv', 'bn': True}]
+    sns = [{'n': 2, 'kind': 'conv'}, {'n': 3, 'kind': 'seq'}, {'n': 3, 'kind': 'mix'}, {'n': 2, 'kind': 'conv', 'bn': True}, {'n': 2, 'kind': 'userdrop'}]
     if tier == 'thorough':
         sns += [{'n': 2, 'kind': 'mix', 'blocks': 2, 'twice': True}, {'n': 4, 'kind': 'user'}]
     for s in sns:
